@@ -16,8 +16,10 @@ Import ListNotations.
 """
 
 
-def gen_graph(rng, want):
-    """Random call graph over functions f0..f(n-1) (root = f0) in two modules; want in {'cycle','eval','ok','both'}."""
+def gen_graph(rng, want, positions=False):
+    """Random call graph over functions f0..f(n-1) (root = f0) in two modules; want in {'cycle','eval','ok','both'}.
+    positions: every edge also gets a syntactic position (c11_positions.GRAPH_POSITIONS) for the call that realises it
+    (last element of the edge); the edge closing the cycle and the nested eval never sit in a plain assignment."""
     n = rng.randint(2, 6)
     mods = [rng.choice(["m0", "m1"]) for _ in range(n)]
     mods[0] = "m0"
@@ -29,6 +31,7 @@ def gen_graph(rng, want):
     for _ in range(rng.randint(0, 3)):
         i, j = sorted(rng.sample(range(n), 2))
         edges[i].append(["to", rng.choice(["call", "keep", "ref", "method"]), j])
+    offending = []
     if want in ("cycle", "both"):
         # back edge closing a cycle of length 1..4
         j = rng.randrange(n)
@@ -42,9 +45,11 @@ def gen_graph(rng, want):
             cur = rng.choice(outs)
             anc.append(cur)
         edges[cur].append(["to", rng.choice(["call", "keep", "ref", "method"]), j])
+        offending.append(edges[cur][-1])
     if want in ("eval", "both"):
         i = rng.randrange(n)
-        edges[i].insert(rng.randint(0, len(edges[i])), ["eval", rng.randrange(n)])
+        offending.append(["eval", rng.randrange(n)])
+        edges[i].insert(rng.randint(0, len(edges[i])), offending[-1])
     for i in range(n):
         rng.shuffle(edges[i]) if rng.random() < 0.5 else None
     # cross-module edges can only be plain calls through the module attribute
@@ -62,7 +67,13 @@ def gen_graph(rng, want):
         if incoming and all(e[1] == "call" for e in incoming) and rng.random() < 0.35:
             names[j] = builtin_names.pop()
     bare_eval = rng.random() < 0.5
-    return {"n": n, "mods": mods, "edges": edges, "names": names, "bare_eval": bare_eval}
+    if positions:
+        import c11_positions as CP
+        classes = sorted(CP.GRAPH_CLASSES)
+        for i in range(n):
+            for e in edges[i]:
+                e.append(rng.choice(CP.GRAPH_CLASSES[rng.choice(classes)]) if any(e is o for o in offending) or rng.random() < 0.5 else "assign")
+    return {"n": n, "mods": mods, "edges": edges, "names": names, "bare_eval": bare_eval, "positions": bool(positions)}
 
 
 def render(gr, root_dir, pkg="vpg"):
@@ -72,6 +83,19 @@ def render(gr, root_dir, pkg="vpg"):
     ev = "eval" if gr.get("bare_eval") else "dds.eval"
     imp = ["from dds import eval"] if gr.get("bare_eval") else []
     src = {"m0": ["import dds", "import vlogmod", "from . import m1"] + imp + [""], "m1": ["import dds", "import vlogmod", "from . import m0"] + imp + [""]}
+    logmod_src = P.LOGMOD_SRC
+    if gr.get("positions"):
+        # the call of every edge is placed in the syntactic position the edge carries; the accepted helpers of the
+        # positions (leaves of the call graph: they do not change what is reachable) are not part of the model graph
+        import c11_positions as CP
+        for m in src:
+            src[m] += CP.HELPERS
+        logmod_src = CP.LOGMOD_SRC
+
+    def stmt(k, e, E):
+        if not gr.get("positions"):
+            return [f"    x{k} = {E}"]
+        return ["    " + l for l in CP.place(e[-1], E)]
     model = []
     npath = 0
     for i in range(n):
@@ -81,36 +105,36 @@ def render(gr, root_dir, pkg="vpg"):
         for k, e in enumerate(edges[i]):
             if e[0] == "eval":
                 tgt = names[e[1]] if mods[e[1]] == m else f"{mods[e[1]]}.{names[e[1]]}"
-                body.append(f"    x{k} = {ev}({tgt})")
+                body += stmt(k, e, f"{ev}({tgt})")
                 medges.append("EEval")
                 continue
-            _, kind, j = e
+            kind, j = e[1], e[2]
             same = mods[j] == m
             name = names[j]
             if kind == "call":
                 if same:
-                    body.append(f"    x{k} = {name}()")
+                    body += stmt(k, e, f"{name}()")
                     seen.add(name)
                 else:
-                    body.append(f"    x{k} = {mods[j]}.{name}()")
+                    body += stmt(k, e, f"{mods[j]}.{name}()")
                     seen.add(mods[j])
                 medges.append(f"ETo KCall {C.hexs(name)}")
             elif kind == "keep":
                 npath += 1
-                body.append(f'    x{k} = dds.keep("/c{npath}", {name})')
+                body += stmt(k, e, f'dds.keep("/c{npath}", {name})')
                 medges.append(f"ETo KKeep {C.hexs(name)}")
                 if name not in seen:
                     seen.add(name)
                     medges.append(f"ETo KRef {C.hexs(name)}")
             elif kind == "ref":
-                body.append(f"    x{k} = vlogmod.apply({name})")
+                body += stmt(k, e, f"vlogmod.apply({name})")
                 if name not in seen:
                     seen.add(name)
                     medges.append(f"ETo KRef {C.hexs(name)}")
             elif kind == "method":
                 cname = f"C{i}_{k}"
                 classes.append((cname, name))
-                body.append(f"    x{k} = {cname}().run()")
+                body += stmt(k, e, f"{cname}().run()")
                 seen.add(cname)
                 medges.append(f"ETo KMethod {C.hexs(cname)}")
                 model.append((cname, [f"ETo KCall {C.hexs(name)}"]))
@@ -123,7 +147,7 @@ def render(gr, root_dir, pkg="vpg"):
     open(os.path.join(pdir, "__init__.py"), "w").write("")
     for m in src:
         open(os.path.join(pdir, m + ".py"), "w").write("\n".join(src[m]) + "\n")
-    open(os.path.join(root_dir, P.LOGMOD + ".py"), "w").write(P.LOGMOD_SRC)
+    open(os.path.join(root_dir, P.LOGMOD + ".py"), "w").write(logmod_src)
     open(os.path.join(root_dir, P.EXTMOD + ".py"), "w").write("")
     return model
 
@@ -157,9 +181,9 @@ def spec_expect(gr):
 
 
 def run_graph_case(args):
-    seed, want = args
+    seed, want, positions = args
     rng = random.Random(seed)
-    gr = gen_graph(rng, want)
+    gr = gen_graph(rng, want, positions)
     root = tempfile.mkdtemp(prefix="c11g_", dir=C.scratch_dir())
     try:
         model_graph = render(gr, root)
@@ -195,7 +219,10 @@ def run(rep, tier, seed, proof_ok, rng):
     import hist
     n_graphs = 40 if tier == "quick" and proof_ok else 400
     wants = ["cycle", "eval", "ok", "both"]
-    jobs = [(seed * 10000 + i, wants[i % 4]) for i in range(n_graphs)]
+    jobs = [(seed * 10000 + i, wants[i % 4], False) for i in range(n_graphs)]
+    # the same, the call of every edge in a random syntactic position (call chains, arguments, operands, statements)
+    n_pos_graphs = 24 if tier == "quick" and proof_ok else 300
+    jobs += [(seed * 10000 + 5000 + i, wants[i % 4], True) for i in range(n_pos_graphs)]
     with cf.ThreadPoolExecutor(max_workers=C.NPROC) as ex:
         res = list(ex.map(run_graph_case, jobs))
     good = [r for r in res if "error" not in r]
@@ -207,19 +234,23 @@ def run(rep, tier, seed, proof_ok, rng):
         out = r["impl"]["out"]
         verdicts[out if not out.startswith("ok") else "ok"] = verdicts.get(out if not out.startswith("ok") else "ok", 0) + 1
         replay = {"graph": r["graph"], "src": r["src"], "impl": out, "model": m, "seed": r["seed"]}
+        sfx = note = ""
+        if r["graph"].get("positions"):
+            sfx = ":positions"
+            note = " [calls placed in positions " + ", ".join(sorted({e[-1] for es in r["graph"]["edges"].values() for e in es} - {"assign"})) + "]"
         iv = "ok" if out.startswith("ok:") else out
         if iv != m:
-            rep.violation("model-mismatch:graph", f"call-graph analysis: implementation {out[:60]} vs model {m}", replay)
+            rep.violation("model-mismatch:graph" + sfx, f"call-graph analysis: implementation {out[:60]} vs model {m}" + note, replay)
         if cyc and not ev and out != "dds:CIRCULAR_CALL":
-            rep.violation("cycle-not-rejected", f"a call cycle is reachable from the root but the evaluation gave {out[:60]}", replay)
+            rep.violation("cycle-not-rejected" + sfx, f"a call cycle is reachable from the root but the evaluation gave {out[:60]}" + note, replay)
         if ev and not cyc and out != "dds:EVAL_IN_EVAL":
-            rep.violation("nested-eval-not-rejected", f"a nested dds.eval is reachable from the root but the evaluation gave {out[:60]}", replay)
+            rep.violation("nested-eval-not-rejected" + sfx, f"a nested dds.eval is reachable from the root but the evaluation gave {out[:60]}" + note, replay)
         if (cyc or ev) and out not in ("dds:CIRCULAR_CALL", "dds:EVAL_IN_EVAL"):
-            rep.violation("ill-formed-not-rejected", f"ill-formed evaluation gave {out[:60]}", replay)
+            rep.violation("ill-formed-not-rejected" + sfx, f"ill-formed evaluation gave {out[:60]}" + note, replay)
         if not cyc and not ev and not out.startswith("ok:"):
-            rep.violation("well-formed-rejected", f"well-formed evaluation was rejected: {out[:60]}", replay)
+            rep.violation("well-formed-rejected" + sfx, f"well-formed evaluation was rejected: {out[:60]}" + note, replay)
         if (cyc or ev) and (r["impl"]["log"] or any(x[0] in ("put", "sync") for x in r["impl"]["rec"])):
-            rep.violation("rejected-but-ran", f"rejected evaluation executed {r['impl']['log']} or touched the store", replay)
+            rep.violation("rejected-but-ran" + sfx, f"rejected evaluation executed {r['impl']['log']} or touched the store" + note, replay)
     for r in res:
         if "error" in r:
             rep.violation("harness-error:c11", "graph case could not be run: " + r["error"][-300:], r, no_input=True)
@@ -310,10 +341,16 @@ def run(rep, tier, seed, proof_ok, rng):
             rep.violation("rejected-but-ran", f"rejected evaluation executed {r['impl']['log']} or touched the store", replay)
         if not exp and not out.startswith("ok:"):
             rep.violation("well-formed-rejected", f"dds.keep({rootp!r}, f) with f keeping {inner} was rejected: {out[:60]}", replay)
-    rep.extra["program_part"] = {"call_graphs": len(good), "verdicts": verdicts, "overlap_evaluations": len(ocases), "overlap_root_path": len(rcases)}
+    # the offending call in every syntactic position, with every kind of offence (and the well-formed twins)
+    import c11_positions
+    c11_positions.run(rep, tier, seed, proof_ok, rng)
+    rep.extra["program_part"] = {"call_graphs": len(good), "call_graphs_with_positions": sum(1 for r in good if r["graph"].get("positions")), "verdicts": verdicts, "overlap_evaluations": len(ocases), "overlap_root_path": len(rcases)}
 
 
 def replay(r):
+    if r.get("position_sweep"):
+        import c11_positions
+        return c11_positions.replay(r)
     print(json.dumps({k: r[k] for k in r if k != "src"}, indent=1)[:2000])
     print("replay: re-run ./check C11 quick with the same seed; sources are in the replay file")
     return 1
